@@ -50,3 +50,38 @@ def drvBistSpec (st : Option (Bist.Cfg × Bist.Regs × BistSpec.Mem)) (xs : List
     (st, fmt [a, Bist.seqData c r i, b2n (BistSpec.inRange c r a), b2n (BistSpec.inMaskWindow c r a)])
   | some (c, r, _), [5] => (st, toString (Bist.nWords c r))
   | _, _ => (st, "bad-line")
+
+/-- Pattern generator / checker. cfg line: dw aw axi ashift depth  a0 d0 a1 d1 ... (the init list)
+generator cycle: reset start cascadeIn cmdReady wdataReady ; out as `bistgen`
+checker cycle: reset start cascadeIn cmdReady rdataValid rdata ; out as `bistchk` -/
+def patCfg : List Nat → Option (Bist.Cfg × List (Nat × Nat))
+  | dw :: aw :: axi :: ashift :: depth :: rest =>
+    let rec prs : List Nat → List (Nat × Nat)
+      | a :: d :: t => (a, d) :: prs t
+      | _ => []
+    some ({ dw, aw, axi := n2b axi, ashift, dma := { depth, buffered := false } }, prs rest)
+  | _ => none
+
+def drvBistPGen (st : Option (Bist.Cfg × List (Nat × Nat) × Bist.PGState)) (xs : List Nat) :
+    Option (Bist.Cfg × List (Nat × Nat) × Bist.PGState) × String :=
+  match st, xs with
+  | none, _ => match patCfg xs with
+    | some (c, init) => (some (c, init, {}), "cfg")
+    | none => (none, "bad-line")
+  | some (c, init, s), [rst, start, ci, cr, wr] =>
+    let (s', o) := Bist.pgstep c init s ⟨n2b rst, n2b start, n2b ci, n2b cr, n2b wr⟩
+    (some (c, init, s'), fmt [b2n o.done, o.ticks, b2n o.cascadeOut, b2n o.port.cmdValid, if o.port.cmdValid then o.port.cmdAddr else 0,
+                              b2n o.port.wdataValid, if o.port.wdataValid then o.port.wdata else 0])
+  | _, _ => (st, "bad-line")
+
+def drvBistPChk (st : Option (Bist.Cfg × List (Nat × Nat) × Bist.PCState)) (xs : List Nat) :
+    Option (Bist.Cfg × List (Nat × Nat) × Bist.PCState) × String :=
+  match st, xs with
+  | none, _ => match patCfg xs with
+    | some (c, init) => (some (c, init, {}), "cfg")
+    | none => (none, "bad-line")
+  | some (c, init, s), [rst, start, ci, cr, rv, rd] =>
+    let (s', o) := Bist.pcstep c init s ⟨n2b rst, n2b start, n2b ci, n2b cr, n2b rv, rd⟩
+    (some (c, init, s'), fmt [b2n o.done, o.errors, o.ticks, b2n o.cascadeOut, b2n o.port.cmdValid, if o.port.cmdValid then o.port.cmdAddr else 0,
+                              b2n o.port.rdataReady])
+  | _, _ => (st, "bad-line")
